@@ -347,7 +347,7 @@ def name_plain(rng, n=None):
 def name_hostile(rng, profile=None):
     """A tree-entry name (bytes, non-empty, no NUL, no '/')."""
     profile = profile or rng.choice(["plain", "spaces", "quotes", "ctrl", "nonutf8", "long",
-                                     "revsyntax", "utf8", "percent"])
+                                     "revsyntax", "utf8", "percent", "escapes"])
     if profile == "plain":
         return name_plain(rng)
     if profile == "spaces":
@@ -361,6 +361,11 @@ def name_hostile(rng, profile=None):
     if profile == "percent":
         return name_plain(rng, 2) + rng.choice([b"100%", b"%", b"rate-5%\"q\"", b"50%\\off", b"%s%d%v", b"%!", b"%%", b"%[1]d", b"%n",
                                                 b"%\ttab", b"x%"]) + rng.choice([b"", b"", name_plain(rng, 1)])
+    if profile == "escapes":
+        # text that looks like an escape sequence of some output format, and the characters those escapes stand for
+        return name_plain(rng, 2) + rng.choice([b"\\u0026", b"R\\u0026D", b"\\u003c", b"a\\u003eb", b"\\u2028", b"&", b"<b>", b"a&amp;b", b"\\x41",
+                                                b"\\\\u0026", b"&#38;", b"\\t", b"\\\"", b"\\/", b"${HOME}", b"$(x)", b"`x`", b"\\u00e9", b"\\U0001F600"]) \
+            + rng.choice([b"", name_plain(rng, 1)])
     if profile == "lf":
         return name_plain(rng, 2) + b"\n" + rng.choice([name_plain(rng, 2), name_plain(rng, 2), b"[1]  injected" + name_plain(rng, 1),
                                                         b"[9]  " + name_plain(rng, 2), b"| x [3] |"])
